@@ -266,9 +266,11 @@ type simReq struct {
 	local    bool     // answered by the proxy itself at decode time
 	keys     [][]byte // keys whose fragments must be answered
 	pending  map[string]int
-	failed   bool // an error / timeout / close completed it
-	lost     bool // ... because its backend connection was lost or a redirect named an unknown node (C15)
-	notok    bool // a node answered an MSET fragment with a status other than OK (C07)
+	failed   bool   // an error / timeout / close completed it
+	lost     bool   // ... because its backend connection was lost or a redirect named an unknown node (C15)
+	notok    bool   // a node answered an MSET fragment with a status other than OK (C07)
+	failedBy string // what completed it first: "err" (a backend error reply), "timeout", "lost", "big", ...
+	errLine  []byte // the error reply a node gave (failedBy == "err")
 	rejected bool
 }
 
@@ -596,6 +598,9 @@ func (r *simRun) backendEvent(j int, kind string, arg string) {
 		b := r.backends[j]
 		if err := r.env.Feed(b.peer, reply); err != nil {
 			r.tags["feed-error"] = true
+			if kind == "err" {
+				r.fail("C11: the event loop returned %v on the ordinary error reply %q of a node: the proxy would shut down instead of relaying the error", err, clip(reply))
+			}
 		}
 		r.model = append(r.model, fmt.Sprintf("S %d %s", j, hx(reply)))
 	}
@@ -757,12 +762,21 @@ func (r *simRun) noteAnswered(j int, cmd [][]byte, kind string, reply []byte) {
 		case "moved", "ask":
 			// stays pending: it will be re-sent
 		default:
+			if !q.failed && !q.complete() {
+				q.failedBy = kind
+				if kind == "err" {
+					q.errLine = append([]byte{}, reply...)
+				}
+			}
 			q.failed = true
 			if kind == "lost" || kind == "unknown-node" {
 				q.lost = true
 			}
 		}
 		if kind == "big" && len(reply) > r.cfg.limit {
+			if !q.failed && q.failedBy == "" {
+				q.failedBy = "big"
+			}
 			q.failed = true
 		}
 	}
@@ -871,6 +885,15 @@ func (r *simRun) checkClients(after string) {
 			continue
 		}
 		for i, rp := range replies {
+			q := c.reqs[i]
+			switch {
+			case q.failedBy == "err" && len(rp) > 0 && rp[0] != '-':
+				r.fail("C11: client %d, request %d %q: a node answered %q but the client received the non-error reply %q (%s)", ci, i, clip(encodeCmd(q.args)), clip(q.errLine), clip(rp), after)
+			case q.failedBy == "err" && len(q.keys) == 1 && !bytes.Equal(rp, q.errLine):
+				r.fail("C11: client %d, request %d %q: the node's error %q reached the client as %q (%s)", ci, i, clip(encodeCmd(q.args)), clip(q.errLine), clip(rp), after)
+			case q.failedBy == "timeout" && string(rp) != "-ERR proxy request timeout\r\n":
+				r.fail("C16: client %d, request %d %q timed out but was answered %q (%s)", ci, i, clip(encodeCmd(q.args)), clip(rp), after)
+			}
 			if !r.acceptable(c.reqs[i], rp) {
 				// a reply that answers another request of the same connection is an ordering defect (C01);
 				// anything else was produced for someone else's request (C03)
@@ -905,13 +928,18 @@ func (r *simRun) checkClients(after string) {
 				p++
 			}
 			if len(replies) < p {
-				lost := -1
+				lost, timedOut := -1, -1
 				for k := len(replies); k < p; k++ {
 					if c.reqs[k].lost && lost < 0 {
 						lost = k
 					}
+					if c.reqs[k].failedBy == "timeout" && timedOut < 0 {
+						timedOut = k
+					}
 				}
-				if lost >= 0 {
+				if timedOut >= 0 && timedOut == len(replies) {
+					r.fail("C16: client %d: request %d %q has timed out but no timeout error was delivered; %d of %d completed leading requests are unanswered (%s)", ci, timedOut, clip(encodeCmd(c.reqs[timedOut].args)), p-len(replies), p, after)
+				} else if lost >= 0 {
 					r.fail("C15: client %d is left waiting: its request %d %q was queued to or in flight on a lost backend connection (or redirected to an unknown node) and %d of %d completed leading requests are unanswered (%s)", ci, lost, clip(encodeCmd(c.reqs[lost].args)), p-len(replies), p, after)
 				} else {
 					r.fail("C09: client %d has %d leading requests completed but only %d replies delivered (%s)", ci, p, len(replies), after)
